@@ -73,6 +73,7 @@ def run(ctx):
         work.append(('mixed', px, py, x, y))
 
     cases = []
+    short_rec = []
     reasons = {}
     for lang, px, py, x, y in work:
         cpx, cpy = Category.parse(px), Category.parse(py)
@@ -81,6 +82,8 @@ def run(ctx):
         line = f'uni {enc_cat(cpx)} {enc_cat(cpy)} {enc_cat(x)} {enc_cat(y)}'
         desc = [px, py, canonical(x), canonical(y)]
         cases.append(('uni', line, out, desc))
+        if not out.startswith('err'):
+            short_rec.append((px, py, desc[2], desc[3], out, sx0, sy0))
         ctx.evaluations += 1
         if sig(x) != sx0 or sig(y) != sy0:
             ctx.fail('matching changed its arguments', desc, fingerprint=['uni-mut'] + desc)
@@ -160,6 +163,31 @@ def run(ctx):
     ctx.extra['oracle_outcomes'] = reasons
     ctx.sample({'patterns': list(work[0][1:3]), 'x': canonical(work[0][3]), 'y': canonical(work[0][4])})
     ctx.sample({'patterns': list(work[-1][1:3]), 'x': canonical(work[-1][3]), 'y': canonical(work[-1][4]), 'stream': 'mixed'})
+    # the same matches on categories that live for one call only (patterns and arguments rebuilt from their text,
+    # matched, released — addresses are reused): the outcome must be the recorded one
+    sample = rng.sample(short_rec, min(len(short_rec), 700))
+    n_short = 0
+    for rnd in range(ctx.budget(3, 10)):
+        stop = False
+        for px, py, tx, ty, want, sx0, sy0 in sample:
+            try:
+                x, y = Category.parse(tx), Category.parse(ty)
+            except Exception:
+                continue
+            if sig(x) != sx0 or sig(y) != sy0:
+                continue        # a value no text denotes (built by the generator): it cannot be rebuilt
+            _, _, out = G.uni_out(Category.parse(px), Category.parse(py), x, y)
+            n_short += 1
+            ctx.evaluations += 1
+            if out != want:
+                ctx.fail('matching freshly built categories gives a different outcome than matching the same categories built earlier',
+                         [px, py, tx, ty], fingerprint=['uni-short-lived', px, py, tx, ty])
+                stop = True
+                break
+            del x, y
+        if stop:
+            break
+    ctx.extra['short_lived_matches'] = n_short
     ctx.extra['skipped_unsupported'] = common.compare_with_model(ctx, cases)
     common.conclude(ctx)
 
